@@ -63,7 +63,8 @@ def jobs(tier):
 
 def requirements(tier):
     req = {f"order:{k}": 20 for k in range(2, 13)}
-    req.update({"reuse:order": 100, "reuse:method": 100, "reuse:form": 100, "reuse:frame": 100})
+    req.update({"reuse:order": 100, "reuse:method": 100, "reuse:form": 100, "reuse:frame": 100, "reuse:settings-then-form-or-frame-assigned": 80,
+                "query-in-another-scale-than-the-table": 3000})
     req.update({
         "window-checked": 20000, "node-exact-lagrange": 5000, "node-linear": 1000, "poly-reproduced": 10000,
         "linear-reproduced": 2000, "refusal-outside": 3000, "labels-checked": 2000, "kepler-accuracy": 5000,
@@ -306,13 +307,27 @@ def reuse_case(ctx, job, idx, rng, st):
     def qdate(x):
         return Date(mjd0 + int(x), (x - int(x)) * 86400.0, scale="TAI")
 
+    def rebuild(e):
+        """Half of the time: after the new settings, the form or the frame of the ephemeris is assigned again (to what it
+        already is: the numbers do not change) -- the interpolator is rebuilt, the settings just chosen must survive."""
+        how = rng.choice([None, None, "form", "frame"])
+        if how == "form":
+            e.form = "cartesian"
+        elif how == "frame":
+            e.frame = "EME2000"
+        if how:
+            ctx.count("reuse:settings-then-form-or-frame-assigned")
+        w["then"] = how
+        return how
+
     try:
         eph = Ephem(nodes, method="lagrange" if scen != "method" else rng.choice(["lagrange", "linear"]), order=k0)
         eph.interpolate(qdate(qs[0]))  # first use: the interpolator now exists
         scale = max(abs(v) for i in range(n) for v in values(i)[:3])
         if scen == "order":
             eph.order = k1
-            ctx.expect(eph.order == k1, "C09/reuse-order-not-reported", w, "ephem.order does not report the value just set")
+            rebuilt = rebuild(eph)
+            ctx.expect(eph.order == k1, "C09/reuse-order-not-reported", dict(w, then=rebuilt), "ephem.order does not report the value just set")
             for x in qs:
                 got = np.asarray(eph.interpolate(qdate(x)), dtype=float)
                 err = float(np.max(np.abs(got - np.array(values(x)))))
@@ -324,7 +339,9 @@ def reuse_case(ctx, job, idx, rng, st):
             eph.method = new
             if new == "lagrange":
                 eph.order = k1
-            ctx.expect(eph.method == new, "C09/reuse-method-not-reported", w, "ephem.method does not report the value just set")
+            rebuilt = rebuild(eph)
+            ctx.expect(eph.method == new and (new != "lagrange" or eph.order == k1), "C09/reuse-method-not-reported", dict(w, then=rebuilt),
+                       "ephem.method / order do not report the values just set")
             for x in qs:
                 got = np.asarray(eph.interpolate(qdate(x)), dtype=float)
                 if new == "linear":
@@ -534,7 +551,12 @@ def dated_case(ctx, job, idx, rng, st):
     base = base_datetime(rng)
     step_us = rng.choice([1, 10, 60, 60, 180, 600]) * US if rng.random() < 0.7 else rng.randrange(20000, 900 * US)
     offs = table_offsets(rng, n, step_us, uniform)
-    dates = [Date(base + timedelta(microseconds=o)) for o in offs]
+    # scale labels: the table and the queries are instants; the table is dated in one scale, the queries in the same or in
+    # another one (exact offsets between TAI, TT, GPS -- and UTC in this configuration without tables)
+    tscale = rng.choice(["UTC", "UTC", "TT", "TAI", "GPS"])
+    qscales = [tscale] if idx % 2 == 0 else ["UTC", "TT", "TAI", "GPS"]
+    dates = [Date(base + timedelta(microseconds=o)).change_scale(tscale) for o in offs]
+    ctx.count("table-scale:" + tscale)
     xs = [d._mjd for d in dates]
     if not all(a < b for a, b in zip(xs, xs[1:])):
         ctx.count("skipped:mjd-not-increasing")
@@ -543,7 +565,8 @@ def dated_case(ctx, job, idx, rng, st):
     form, frame = rng.choice(FORMS), rng.choice(FRAMES)
     scales = [2.0 ** rng.randrange(10, 26)] * 3 + [2.0 ** rng.randrange(0, 14)] * 3
     descr = {"cls": cls, "method": method, "order": k, "n": n, "uniform": uniform, "base": base.isoformat(), "step_us": step_us,
-             "degree": degree, "form": form, "frame": frame, "offs_head": offs[:6], "scales_log2": [math.log2(s) for s in scales]}
+             "degree": degree, "form": form, "frame": frame, "offs_head": offs[:6], "scales_log2": [math.log2(s) for s in scales],
+             "table_scale": tscale, "query_scales": qscales}
     ctx.case(descr, nontrivial=n > 2)
     ctx.count("class:" + cls)
     count_table(ctx, k, n, uniform)
@@ -573,7 +596,10 @@ def dated_case(ctx, job, idx, rng, st):
         f = eph.interpolate if cls == "Ephem.interpolate" else eph.propagate
 
     def qdate(off_us=None, x=None):
-        return Date(base + timedelta(microseconds=off_us))
+        qs_ = rng.choice(qscales)
+        if qs_ != tscale:
+            ctx.count("query-in-another-scale-than-the-table")
+        return Date(base + timedelta(microseconds=off_us)).change_scale(qs_)
 
     # queries: nodes, every interval, edges over-sampled; queries are dates (integer microseconds)
     queries = [(o, "node") for o in offs]
